@@ -28,6 +28,9 @@ def configs(ss, thorough):
     cf['vaccine-campaign'] = lambda seed: ss.Sim(n_agents=80, diseases=ss.SIR(), networks=ss.RandomNet(n_contacts=4),
                                                  interventions=ss.campaign_vx(years=[2002], prob=0.5, product=ss.sir_vaccine()),
                                                  dur=5, rand_seed=seed, verbose=0)
+    # a long run (every distribution is called well over 100 times before the late pauses)
+    cf['long-run-days'] = lambda seed: ss.Sim(n_agents=40, diseases=ss.SIS(beta=ss.beta(0.03, 'day'), dur_inf=ss.dur(10, 'day')), networks=ss.RandomNet(n_contacts=4), analyzers=Rec(),
+                                              unit='day', dt=1.0, start='2020-01-01', dur=150, rand_seed=seed, verbose=0)
     if thorough:
         cf['two-diseases-erdos'] = lambda seed: ss.Sim(n_agents=80, diseases=[ss.SIR(), ss.SIS(beta=0.1)], networks=ss.ErdosRenyiNet(p=0.05),
                                                        dur=5, rand_seed=seed, verbose=0, total_pop=1000)
@@ -113,7 +116,9 @@ def run(ctx):
             ref = finish(base)
         except Exception as E:
             raise Broken('correspondence', f'reference run {name} failed: {type(E).__name__}: {E}')
-        if ctx.thorough: ks = list(range(0, nplan + 1))
+        if name == 'long-run-days':     # a few late boundaries only (the plan has thousands of rows)
+            ks = sorted(set([int(nplan * f) for f in (0.72, 0.8, 0.93)] + [nplan - 1]))
+        elif ctx.thorough: ks = list(range(0, nplan + 1))
         else:
             ks = sorted(set([0, 1, nplan - 1, nplan] + [rng.randrange(2, nplan - 1) for _ in range(5)]))
         modes = ['none', 'deepcopy', 'pickle', 'saveload']
